@@ -361,3 +361,5 @@ ASSUMPTIONS = [
 OUTSIDE = ['more frames / starts / processors than the bounds', 'time functions that go backwards or return '
            'non-numbers', 'Quit raised by event handlers while on_quit is being dispatched',
            'Loop subclasses other than SimpleLoop']
+
+TECHNIQUE = 'bounded symbolic execution of the real SimpleLoop with symbolic real clock readings (z3 LRA validity of dt == difference), concolic cross-check'
